@@ -14,6 +14,8 @@
 #include <cocls/generator.h>
 #include <cocls/coro_storage.h>
 #include <cocls/with_allocator.h>
+#include <cocls/callback_awaiter.h>
+#include <cstring>
 #include <execinfo.h>
 #include <dlfcn.h>
 #include <new>
@@ -271,6 +273,55 @@ inline std::string prog_generator(vf::rng &r, std::string &desc, long &frames, l
     return err;
 }
 
+// ---- awaiting by the callback awaiter in its packaged form (callback_await / callback_await_alloc): the library creates ONE coroutine
+// frame per registration (in the supplied storage, when one is supplied); the callback closure and the arguments live inside that
+// frame whatever their size
+template <size_t PAD> struct cba_closure {
+    c20_ctx *C; char pad[PAD];
+    void operator()(cocls::await_result<int> r) { C->released++; if (r) C->sum += *r; }
+};
+template <size_t PAD> void cba_register(bool nonheap, cocls::reusable_storage &st, cocls::future<int> *&fptr_out, cocls::promise<int> &prom, c20_ctx &C, bool resolved_first, int how) {
+    (void)fptr_out;
+    cba_closure<PAD> cl; cl.C = &C; memset(cl.pad, 1, PAD);
+    auto mk = [&prom, resolved_first, how] { return cocls::future<int>([&](cocls::promise<int> p) { if (resolved_first) { if (how == 0) p(3); else p(cocls::drop); } else prom = std::move(p); }); };
+    al::creating++;
+    // rvalues: an lvalue callable would be kept BY REFERENCE in the frame (library contract, see DESIGN 8.3a)
+    if (nonheap) cocls::callback_await_alloc<cocls::reusable_storage, cocls::future<int>>(st, std::move(cl), std::move(mk));
+    else cocls::callback_await<cocls::future<int>>(std::move(cl), std::move(mk));
+    al::creating--;
+}
+inline void cba_dispatch(int padsel, bool nonheap, cocls::reusable_storage &st, cocls::future<int> *&fp, cocls::promise<int> &prom, c20_ctx &C, bool rf, int how) {
+    switch (padsel) {
+    case 0: cba_register<8>(nonheap, st, fp, prom, C, rf, how); break;
+    case 1: cba_register<48>(nonheap, st, fp, prom, C, rf, how); break;
+    case 2: cba_register<56>(nonheap, st, fp, prom, C, rf, how); break;
+    case 3: cba_register<72>(nonheap, st, fp, prom, C, rf, how); break;
+    default: cba_register<248>(nonheap, st, fp, prom, C, rf, how); break;
+    }
+}
+inline std::string prog_callback_await(vf::rng &r, bool nonheap, std::vector<cocls::reusable_storage> &stor, std::string &desc, long &frames, long &deq) {
+    static const int pads[] = {8, 48, 56, 72, 248};
+    int nreg = 1 + (int)r.below(3);
+    int padsel[3], how[3]; bool rf[3];
+    desc = std::string(nonheap ? "callback_await_alloc(warm reusable storage)" : "callback_await") + " registrations=" + std::to_string(nreg) + " closures:";
+    for (int i = 0; i < nreg; i++) { padsel[i] = (int)r.below(5); how[i] = (int)r.below(2); rf[i] = r.chance(1, 3); desc += " " + std::to_string(pads[padsel[i]] + 8) + "B/" + (rf[i] ? "ready" : "parked") + (how[i] ? "/drop" : "/value"); }
+    c20_ctx C; std::string err;
+    {
+        al::region reg;
+        {
+            cocls::promise<int> prom[3]; cocls::future<int> *fp = nullptr;
+            for (int i = 0; i < nreg; i++) cba_dispatch(padsel[i], nonheap, stor[(size_t)i], fp, prom[i], C, rf[i], how[i]);
+            for (int i = 0; i < nreg; i++) if (!rf[i]) { if (how[i] == 0) prom[i](3); else prom[i](cocls::drop); }
+        }
+        frames = reg.nframes(); deq = reg.ndeque();
+        if (reg.nother()) err = std::string("allocation by the primitives: ") + al::other_stack;
+        else if (C.released != nreg) err = "harness: callbacks called " + std::to_string(C.released) + " times for " + std::to_string(nreg) + " registrations";
+        else if (nonheap && frames) err = "callback_await_alloc with a warm storage allocated " + std::to_string(frames) + " heap block(s): the frame, the closure and the arguments belong into the supplied storage";
+        else if (!nonheap && frames != nreg) err = "callback_await made " + std::to_string(frames) + " heap allocations for " + std::to_string(nreg) + " registrations (exactly one coroutine frame each is expected)";
+    }
+    return err;
+}
+
 // Programs that involve no asynchronous coroutine at all (a synchronous generator stepped by ordinary code; future/promise with
 // callback awaiters and polling; try_lock/unlock) do not need the thread's ready queue either. Run on a BRAND-NEW thread, where the
 // thread-local ready queue has never been touched, such a program must not allocate anything but the generator frame itself - not
@@ -331,6 +382,8 @@ inline void alloc_free_programs(const vf::opts &o, vf::report &R, uint64_t progr
         for (auto &s : stor) waiter_reuse<pod8>(s, f, C).detach();
         p(cocls::drop);
         cocls::mutex mx; { auto own = mx.try_lock(); for (auto &s : stor) locker_reuse(s, mx, C, 1).detach(); }
+        cocls::promise<int> wp[3]; cocls::future<int> *fp = nullptr;
+        for (int i = 0; i < 3; i++) { cba_dispatch(4, true, stor[(size_t)i], fp, wp[i], C, false, 0); wp[i](1); }
     }
     long total_frames = 0, total_deque = 0;
     for (uint64_t pn = 0; pn < programs && R.nviol() < 5; pn++) {
@@ -339,7 +392,8 @@ inline void alloc_free_programs(const vf::opts &o, vf::report &R, uint64_t progr
         std::string desc, err; long fr = 0, dq = 0;
         bool nonheap = r.chance(1, 3);
         al::other_recorded.store(0);
-        switch (r.below(pn % 8 == 7 ? 6 : 5)) {
+        switch (pn % 8 == 3 ? 6u : r.below(pn % 8 == 7 ? 6 : 5)) {
+        case 6: err = prog_callback_await(r, nonheap, stor, desc, fr, dq); break;
         case 5: err = prog_cold_thread(r, desc, fr, dq); break;
         case 0: err = prog_future<int>(r, nonheap, stor, Hs, desc, fr, dq); break;
         case 1: err = prog_future<pod8>(r, nonheap, stor, Hs, desc, fr, dq); break;
